@@ -48,6 +48,7 @@ var engineBProps = map[string]*engineB{
 	"C15": {design: "4/C15", fine: []string{"bus/directory/directory.go"}},
 	"C16": {design: "4/C16", fine: []string{"bus/service.go"}},
 	"C17": {design: "4/C17"},
+	"C19": {design: "4/C19", fine: []string{"bus/session/session.go"}},
 }
 
 func env() []string {
